@@ -30,6 +30,7 @@ RULE = (
     "file loads as an empty registry. Non-trivial = content that json.loads accepts but that is not a valid registry file (load raised), "
     "or a special path; distinct = distinct file content. Thorough adds a coverage-guided atheris campaign over the file bytes."
     ' Round 5: non-finite and huge numbers for every field; missing file after the same object saved/loaded it before.'
+    ' Round 6: missing file after the same object failed to load a damaged one.'
 )
 ASSUMPTIONS = ["real files in a scratch directory; running as root, so permission faults are represented by the directory case only"]
 SHRINK_STRINGS = ("data",)
